@@ -1043,6 +1043,180 @@ def rule_r11(prog, res):
                                                   for r in rets])
 
 
+# ------------------------------------------------------------------ R12
+def rule_r12(prog, res):
+    res.rule('R12', 'each part of a fault document is written whenever the '
+             'fault has it: its presence depends on that part alone; the '
+             'SOAP 1.2 sub-code list and the detail converter decide on the '
+             'item they handle')
+    fc = prog.cls('spyne.model.fault:Fault')
+    f = fc.methods.get('to_dict')
+    if f is None:
+        raise AnalysisError('Fault.to_dict', 'not found')
+    n = 0
+    for a in walk_no_defs(f.node):
+        if not isinstance(a, ast.Assign):
+            continue
+        for t in a.targets:
+            if not (isinstance(t, ast.Subscript) and isinstance(
+                    t.slice, ast.Constant) and isinstance(t.slice.value,
+                                                          str)):
+                continue
+            key = t.slice.value
+            n += 1
+            atoms = guardspec.atoms_at(a, f.node)
+            foreign = [(tx, pol) for tx, pol in atoms
+                       if 'issubclass(cls' not in tx and
+                       ('value.%s' % key) not in tx and
+                       not (key == 'faultactor' and
+                            'ignore_empty_faultactor' in tx)]
+            where = '%s:%d' % (f.module.relpath, a.lineno)
+            res.ob('R12', where, 'Fault.to_dict writes %r under %s' % (
+                key, ['%s%s' % ('' if pol else 'not ', tx)
+                      for tx, pol in atoms]),
+                'VIOLATED' if foreign else 'ok')
+            for tx, pol in foreign[:1]:
+                res.finding('R12', 'Fault.to_dict|%s|foreign-condition' % key,
+                            where, 'the %r entry of the fault document is '
+                            'written only under "%s%s", a condition on '
+                            'another part of the fault: faults that fail it '
+                            'lose their %s on every dict-document protocol' %
+                            (key, '' if pol else 'not ', tx, key))
+    res.floor('R12', 'entries of the fault document', n, 2)
+    # SOAP 1.2: code and sub-codes come from one split
+    s12 = prog.cls('spyne.protocol.soap.soap12:Soap12')
+    g = s12.methods.get('gen_fault_codes')
+    if g is None:
+        raise AnalysisError('Soap12.gen_fault_codes', 'not found')
+    rets = [r for r in walk_no_defs(g.node) if isinstance(r, ast.Return) and
+            isinstance(r.value, ast.Tuple) and len(r.value.elts) == 2]
+    res.floor('R12', 'returns of gen_fault_codes', len(rets), 1)
+    for r in rets:
+        sub = r.value.elts[1]
+        resplit = [c for c in ast.walk(sub) if isinstance(c, ast.Call) and
+                   call_name(c) in ('split', 'rsplit')]
+        srcs = []
+        if isinstance(sub, ast.Name):
+            srcs = [a.value for a in walk_no_defs(g.node) if isinstance(
+                a, ast.Assign) and any(isinstance(t, ast.Name) and
+                                       t.id == sub.id for t in a.targets)]
+            resplit += [c for v in srcs for c in ast.walk(v)
+                        if isinstance(c, ast.Call) and call_name(c) in (
+                            'split', 'rsplit')]
+        # a split of the *remainder* (partition, maxsplit) yields [''] for a
+        # code without sub-codes
+        remainder = [c for c in resplit if isinstance(c.func, ast.Attribute)
+                     and unparse(c.func.value) not in g.params()]
+        guarded = [c for c in remainder
+                   if guardspec.atoms_at(c, g.node) and any(
+                       unparse(c.func.value) in tx
+                       for tx, _ in guardspec.atoms_at(c, g.node))]
+        bad = [c for c in remainder if c not in guarded]
+        where = '%s:%d' % (g.module.relpath, r.lineno)
+        res.ob('R12', where, 'gen_fault_codes returns sub-codes %s' % (
+            unparse(sub)[:40]), 'VIOLATED' if bad else 'ok')
+        for c in bad[:1]:
+            res.finding('R12', 'Soap12.gen_fault_codes|remainder-split',
+                        where, 'the sub-code list is %s, a split of the '
+                        'remainder of the code: for a code without '
+                        'sub-codes ("Server") the remainder is empty and '
+                        '"".split(".") is [""], so the fault gets an empty '
+                        'Subcode and decodes as "Server."' % unparse(c)[:40])
+    # the detail converter tests the item it is about to convert
+    m = prog.module('spyne.util.etreeconv')
+    k = 0
+    for fn in m.functions.values():
+        if fn.name not in ('dict_to_etree', 'root_dict_to_etree'):
+            continue
+        for loop in walk_no_defs(fn.node):
+            if not isinstance(loop, ast.For):
+                continue
+            it = unparse(loop.iter)
+            for st in loop.body:
+                for x in ast.walk(st):
+                    if isinstance(x, ast.If):
+                        k += 1
+                        tests = [c for c in ast.walk(x.test) if isinstance(
+                            c, ast.Call) and call_name(c) == 'isinstance' and
+                            c.args and unparse(c.args[0]) == it]
+                        where = '%s:%d' % (m.relpath, x.lineno)
+                        res.ob('R12', where, '%s: item test %s in the loop '
+                               'over %s' % (fn.qualname,
+                                            unparse(x.test)[:50], it),
+                               'VIOLATED' if tests else 'ok')
+                        if tests:
+                            res.finding('R12', '%s|container-tested-in-loop'
+                                        % fn.qualname, where, 'inside the '
+                                        'loop over %s the kind test looks at '
+                                        '%s itself, not at the item: the '
+                                        'branch is decided once for the whole '
+                                        'list, so dicts inside a list are '
+                                        'written as their str() instead of '
+                                        'nested elements' % (it, it))
+    res.floor('R12', 'item tests in the detail converter loops', k, 1)
+
+
+# ------------------------------------------------------------------ R13
+def rule_r13(prog, res):
+    res.rule('R13', 'SOAP 1.2 fault writer: the "no sub-code yet" marker is '
+             'one the final test recognises (initial constant evaluated '
+             'against the comparison that guards the append)')
+    s12 = prog.cls('spyne.protocol.soap.soap12:Soap12')
+    f = s12.methods.get('_fault_to_parent_impl')
+    if f is None:
+        raise AnalysisError('Soap12._fault_to_parent_impl', 'not found')
+    n = 0
+    for a in walk_no_defs(f.node):
+        if not (isinstance(a, ast.Assign) and len(a.targets) == 1 and
+                isinstance(a.targets[0], ast.Name) and
+                isinstance(a.value, ast.Constant)):
+            continue
+        var, init = a.targets[0].id, a.value.value
+        for t in walk_no_defs(f.node):
+            if not (isinstance(t, ast.If) and t.lineno > a.lineno):
+                continue
+            c = t.test
+            uses = [x for st in t.body for x in ast.walk(st) if isinstance(
+                x, ast.Call) and call_name(x) in ('append', 'extend',
+                                                  'insert') and any(
+                isinstance(y, ast.Name) and y.id == var for y in x.args)]
+            if not uses:
+                continue
+            verdict = None
+            if isinstance(c, ast.Compare) and len(c.ops) == 1 and isinstance(
+                    c.left, ast.Name) and c.left.id == var and isinstance(
+                    c.comparators[0], ast.Constant):
+                k = c.comparators[0].value
+                op = c.ops[0]
+                try:
+                    verdict = {ast.NotEq: init != k, ast.Eq: init == k,
+                               ast.IsNot: init is not k, ast.Is: init is k
+                               }.get(type(op))
+                except Exception:
+                    verdict = None
+            elif isinstance(c, ast.Name) and c.id == var:
+                verdict = bool(init)
+            elif isinstance(c, ast.UnaryOp) and isinstance(c.op, ast.Not) and \
+                    isinstance(c.operand, ast.Name) and c.operand.id == var:
+                verdict = not init
+            if verdict is None:
+                continue
+            n += 1
+            where = '%s:%d' % (f.module.relpath, t.lineno)
+            res.ob('R13', where, '%s starts as %r; "%s" is %s for that '
+                   'marker' % (var, init, unparse(c), verdict),
+                   'VIOLATED' if verdict else 'ok')
+            if verdict:
+                res.finding('R13', 'Soap12._fault_to_parent_impl|marker|%s' %
+                            var, where, '%s is initialised to %r, for which '
+                            'the test "%s" holds: a fault code without '
+                            'sub-codes ("Server", "Client") appends the '
+                            'marker itself to the Code element and the '
+                            'serialisation of the fault raises TypeError' % (
+                                var, init, unparse(c)))
+    res.floor('R13', 'marker tests in the SOAP 1.2 fault writer', n, 1)
+
+
 def run(prog, res, tier):
     res.run_rule(rule_r8, prog, res)
     res.run_rule(rule_r1, prog, res, tier)
@@ -1054,6 +1228,8 @@ def run(prog, res, tier):
     res.run_rule(rule_r9, prog, res)
     res.run_rule(rule_r10, prog, res)
     res.run_rule(rule_r11, prog, res)
+    res.run_rule(rule_r12, prog, res)
+    res.run_rule(rule_r13, prog, res)
 
 
 _A = 'spyne/application.py'
@@ -1064,6 +1240,38 @@ _H = 'spyne/protocol/dictdoc/hier.py'
 _F = 'spyne/model/fault.py'
 
 MUTANTS = [
+    Mutant('subcode-marker-none', 'R13', 'fire',
+           'spyne/protocol/soap/soap12.py',
+           in_func('Soap12._fault_to_parent_impl',
+                   "child_subcode = False", "child_subcode = None"),
+           'marker'),
+    Mutant('subcode-marker-truthiness-test', 'R13', 'silent',
+           'spyne/protocol/soap/soap12.py',
+           in_func('Soap12._fault_to_parent_impl',
+                   "if child_subcode != 0:", "if child_subcode:"), None),
+    Mutant('detail-only-with-actor', 'R12', 'fire', 'spyne/model/fault.py',
+           in_func('Fault.to_dict',
+                   "        if value.detail is not None:\n"
+                   "            retval[\"detail\"] = value.detail_to_doc(prot)",
+                   "            if value.detail is not None:\n"
+                   "                retval[\"detail\"] = "
+                   "value.detail_to_doc(prot)"), 'foreign-condition'),
+    Mutant('subcodes-from-remainder', 'R12', 'fire',
+           'spyne/protocol/soap/soap12.py',
+           in_func('Soap12.gen_fault_codes',
+                   "        return value, faultstrings",
+                   "        return value, faultstring.partition('.')[2]"
+                   ".split('.')"), 'remainder-split'),
+    Mutant('list-items-tested-on-container', 'R12', 'fire',
+           'spyne/util/etreeconv.py',
+           in_func('dict_to_etree',
+                   "if isinstance(e, dict) or isinstance(e, odict):",
+                   "if isinstance(v, dict):"), 'container-tested-in-loop'),
+    Mutant('detail-odict-test-dropped', 'R12', 'silent',
+           'spyne/util/etreeconv.py',
+           in_func('dict_to_etree',
+                   "if isinstance(e, dict) or isinstance(e, odict):",
+                   "if isinstance(e, dict):"), None),
     Mutant('blank-message-replaced', 'R11', 'fire', 'spyne/model/fault.py',
            in_func('Fault.__init__',
                    "self.faultstring = faultstring or self.get_type_name()",
